@@ -130,6 +130,11 @@ func roundTrip(h *Harness, sc interface{}) (interface{}, []byte, error) {
 
 var execCount int
 
+// BeforeGC, if set by a harness, runs before each explicit collection between
+// runs (e.g. to detach finalizers of objects a cut-off run left behind: a
+// finalizer that touches a channel of a finished bubble crashes the process).
+var BeforeGC func()
+
 // execOnce runs one bubble. The garbage collector is switched off while a run
 // executes (a GC cycle preempts the running goroutine and reorders the run
 // queue, which would make schedules irreproducible) and is run explicitly
@@ -141,6 +146,9 @@ func execOnce(t *testing.T, h *Harness, sc interface{}, o sim.Options) *sim.Resu
 	}
 	execCount++
 	if execCount%gcEvery == 0 {
+		if BeforeGC != nil {
+			BeforeGC()
+		}
 		runtime.GC()
 	}
 	if o.MaxSteps == 0 {
